@@ -126,9 +126,40 @@ fn run(subj: &str, nslots: usize, path: &[Value]) -> (World, Vec<Step>) {
     (w, steps)
 }
 
+/// The model ignores the input form of a push (C20), so every assignment of forms to the pushes of
+/// a path is a behaviour of the model. TLC's search extends only one path per state; the forms of
+/// the earlier pushes are therefore re-drawn here (deterministically, from the path itself) so that
+/// histories mix forms. The last operation keeps the form the edge was emitted for.
+fn diversify_forms(subj: &str, edge: &Value) -> Vec<Value> {
+    let path: &[Value] = edge["path"].as_array().expect("edge.path");
+    if edge["fixed_forms"] == json!(true) {
+        return path.to_vec(); // a stored replay: execute exactly what was recorded
+    }
+    let nforms = crate::catalogue::find(subj).forms.len().max(1);
+    let mut h: u64 = 0xcbf29ce484222325;
+    for b in serde_json::to_string(&path).unwrap_or_default().bytes() {
+        h = (h ^ b as u64).wrapping_mul(0x100000001b3);
+    }
+    let n = path.len();
+    path.iter()
+        .enumerate()
+        .map(|(i, op)| {
+            if i + 1 < n && op["op"] == "push" {
+                let mut o = op.clone();
+                h = h.rotate_left(13).wrapping_mul(0x9e3779b97f4a7c15);
+                o["f"] = json!((h >> 33) as usize % nforms);
+                o
+            } else {
+                op.clone()
+            }
+        })
+        .collect()
+}
+
 pub fn judge(edge: &Value, prop: &str) -> Verdict {
     let subj = edge["subj"].as_str().expect("edge.subj");
-    let path: &Vec<Value> = edge["path"].as_array().expect("edge.path");
+    let diversified = diversify_forms(subj, edge);
+    let path: &Vec<Value> = &diversified;
     let exp = &edge["obs"];
     let nslots = exp.as_array().map(|a| a.len()).unwrap_or(1);
     let init = empty_obs(nslots);
@@ -600,7 +631,7 @@ pub fn replay_edge(edge: &Value, prop: &str, rep: &mut Report) {
             "sig": format!("{}:{}", subj, v.why[0]),
             "why": v.why.join(","),
             "subj": subj,
-            "path": edge["path"],
+            "path": diversify_forms(&subj, edge),
             "expected": {"res": edge["res"], "obs": edge["obs"]},
             "detail": v.detail,
         }));
